@@ -45,6 +45,7 @@ type Op struct {
 	Frags   []FragDef
 	Vars    map[string]any
 	Note    string // which decorations were applied
+	Raw     string // when set, the operation text itself (curated operations)
 }
 
 func (n *Node) clone() *Node {
@@ -130,6 +131,9 @@ func printNodes(sb *strings.Builder, ns []*Node) {
 }
 
 func (o *Op) String() string {
+	if o.Raw != "" {
+		return o.Raw
+	}
 	var sb strings.Builder
 	named := o.Name != "" || len(o.VarDefs) > 0 || o.Kind != "query"
 	if named {
